@@ -11,7 +11,7 @@ from pyvc.contract import contract
 CO = 'mystic/collapse.py::'
 MON = 'mystic/monitors.py::Monitor'
 N = 3
-WINDOWS = [(3, 2), (3, 3), (2, 5), (1, 1)]          # (recorded generations, look-back `generations`)
+WINDOWS = [(3, 2), (3, 3), (2, 5), (1, 1), (3, 4), (3, 5)]   # incl. windows longer than the history but shorter than twice it          # (recorded generations, look-back `generations`)
 
 
 def _monitor(h, G, n=N):
